@@ -73,7 +73,7 @@ def check_backup_callback(ctx: Ctx) -> None:
     s = ctx.index.method(BS, "BaseScenario", "save_optimization_history")
     cons = cname(BS, "BaseScenario", "save_optimization_history")
     h = [c for c in walk_body(s) if isinstance(c, ast.Call) and last_attr(c) == "to_hdf"]
-    ok = len(h) == 1 and any(k.arg == "append" and dotted(k.value) == "append" for k in h[0].keywords) and any(k.arg == "file_path" and dotted(k.value) == "file_path" for k in h[0].keywords)
+    ok = len(h) == 1 and dotted(kwarg(h[0], "append")) == "append" and dotted(kwarg(h[0], "file_path")) == "file_path"
     ctx.ob("12.1-append", cons, ok, "save_optimization_history must forward file_path and append to OptimizationProblem.to_hdf", node=(h or [s])[0])
     d = ctx.index.method(DB, "Database", "to_hdf")
     c = [x for x in walk_body(d) if isinstance(x, ast.Call) and last_attr(x) == "to_file"]
@@ -143,7 +143,7 @@ def check_backup_setup(ctx: Ctx) -> None:
         ln = cfg.node_of(listen[0])
         ok = cfg.reachable(cfg.node_of(load[0]), ln) and not cfg.reachable(ln, cfg.node_of(load[0]))
         ctx.ob("12.3-load-before-listen", con, ok, "the backup must be loaded before the backup callback listens: loading stores every loaded point, and a listening callback would re-export the file while it is being read", node=listen[0])
-        kw = {k.arg: dotted(k.value) for k in listen[0].keywords}
+        kw = {n_: dotted(kwarg(listen[0], n_)) for n_ in ("at_each_iteration", "at_each_function_call")}
         ok = kw.get("at_each_iteration") == "at_each_iteration" and kw.get("at_each_function_call") == "at_each_function_call"
         ctx.ob("12.3-listen", con, ok, "the two backup frequencies must be forwarded to add_listener under their own names", node=listen[0], stmt="frequencies forwarded")
     raises = [s for s in stmts_of(f) if isinstance(s, ast.Raise)]
